@@ -4,6 +4,7 @@ import (
 	"fmt"
 	"go/token"
 	"go/types"
+	"strings"
 
 	"golang.org/x/tools/go/ssa"
 )
@@ -139,6 +140,38 @@ type gWrite struct {
 	root  ssa.Value
 	key   ssa.Value
 	val   ssa.Value
+	// an insertion performed by an unexported helper under its key parameter (addNode(id, addr)) is judged
+	// where the helper is called: `lifted` marks the synthetic write at the call site (key = the argument,
+	// val = the call), `inHelper` the real one inside the helper. Guard rules use the former, pairing rules
+	// (insert followed by OnJoin) the latter.
+	lifted   bool
+	inHelper bool
+}
+
+// insertHelperKey: fn is an unexported function that stores a fresh node into the table under one of its own
+// parameters; returns that parameter's index.
+func (g *gossipAnchors) insertHelperKey(fn *ssa.Function) (int, bool) {
+	if fn == nil || fn.Blocks == nil || fn.Object() == nil || fn.Object().Exported() || strings.HasPrefix(fn.Name(), "new") {
+		return 0, false
+	}
+	idx, found := 0, false
+	allInstrs(fn, func(i ssa.Instruction) {
+		mu, ok := i.(*ssa.MapUpdate)
+		if !ok {
+			return
+		}
+		if _, ok := loadedField(mu.Map, g.nodesF); !ok {
+			return
+		}
+		if pv, ok := strip(mu.Key).(*ssa.Parameter); ok {
+			for k, pp := range fn.Params {
+				if pp == pv {
+					idx, found = k, true
+				}
+			}
+		}
+	})
+	return idx, found
 }
 
 func (w gWrite) String() string { return w.kind }
@@ -154,20 +187,27 @@ func (g *gossipAnchors) writes(fn *ssa.Function) []gWrite {
 				if fv == g.entriesF {
 					k = "entries-reset"
 				}
-				out = append(out, gWrite{fn, i, k, root, nil, x.Val})
+				out = append(out, gWrite{fn: fn, instr: i, kind: k, root: root, key: nil, val: x.Val})
 			}
 		case *ssa.MapUpdate:
 			if base, ok := loadedField(x.Map, g.entriesF); ok {
-				out = append(out, gWrite{fn, i, "entries-update", base, x.Key, x.Value})
+				out = append(out, gWrite{fn: fn, instr: i, kind: "entries-update", root: base, key: x.Key, val: x.Value})
 			} else if _, ok := loadedField(x.Map, g.nodesF); ok {
-				out = append(out, gWrite{fn, i, "nodes-insert", x.Value, x.Key, x.Value})
+				_, helper := g.insertHelperKey(fn)
+				_, keyIsParam := strip(x.Key).(*ssa.Parameter)
+				out = append(out, gWrite{fn: fn, instr: i, kind: "nodes-insert", root: x.Value, key: x.Key, val: x.Value, inHelper: helper && keyIsParam})
 			}
 		case *ssa.Call:
+			if sc := x.Call.StaticCallee(); sc != nil && inModule(sc) {
+				if idx, ok := g.insertHelperKey(sc); ok && idx < len(x.Call.Args) {
+					out = append(out, gWrite{fn: fn, instr: i, kind: "nodes-insert", root: x, key: x.Call.Args[idx], val: x, lifted: true})
+				}
+			}
 			if b, ok := x.Call.Value.(*ssa.Builtin); ok && b.Name() == "delete" {
 				if base, ok := loadedField(x.Call.Args[0], g.entriesF); ok {
-					out = append(out, gWrite{fn, i, "entries-delete", base, x.Call.Args[1], nil})
+					out = append(out, gWrite{fn: fn, instr: i, kind: "entries-delete", root: base, key: x.Call.Args[1], val: nil})
 				} else if _, ok := loadedField(x.Call.Args[0], g.nodesF); ok {
-					out = append(out, gWrite{fn, i, "nodes-delete", nil, x.Call.Args[1], nil})
+					out = append(out, gWrite{fn: fn, instr: i, kind: "nodes-delete", root: nil, key: x.Call.Args[1], val: nil})
 				}
 			}
 		}
